@@ -3,7 +3,11 @@
 pinned tree and store the complete list of failing cases per scope, after they have been triaged
 as instances of a known finding.  usage: collect_witnesses.py C01"""
 import gzip, importlib, json, os, sys
-os.environ["PYTHONHASHSEED"] = "0"
+if os.environ.get("PYTHONHASHSEED") != "0" or os.environ.get("XMLSCHEMA_VERIF_TRACE") != "1":
+    os.environ["PYTHONHASHSEED"] = "0"
+    os.environ["XMLSCHEMA_VERIF_TRACE"] = "1"
+    os.execv(sys.executable, [sys.executable] + sys.argv)
+sys.path.insert(0, "/repo")
 sys.path.insert(0, os.path.dirname(os.path.dirname(os.path.abspath(__file__))))
 from harness.core import Ctx, VERIF
 pid = sys.argv[1]
